@@ -13,6 +13,8 @@ import LibfiberVerif.Model.DistFifo
 import LibfiberVerif.Model.Stack
 import LibfiberVerif.Model.Sched
 import LibfiberVerif.Model.Mutex
+import LibfiberVerif.Model.Barrier
+import LibfiberVerif.Model.RwLock
 import LibfiberVerif.Model.Spin
 import LibfiberVerif.Model.WorkQueue
 import LibfiberVerif.Model.Wsd
@@ -29,6 +31,8 @@ def registry : List (String × (List String → IO UInt32)) := [
   ("Stack", Stack.drive),
   ("Sched", Sched.drive),
   ("Mutex", Mutex.drive),
+  ("Barrier", Barrier.drive),
+  ("RwLock", RwLock.drive),
   ("Spin", Spin.drive),
   ("WorkQueue", WorkQueue.drive),
   ("Wsd", Wsd.drive)
